@@ -143,8 +143,9 @@ func caseCoq(f *Fam, c Case) string {
 				}
 				// the argument is irrational in the R model (division by sqrt 2): the logged
 				// value is assumed on a 2^-40 neighbourhood of the binary64 argument
-				hyps = append(hyps, fmt.Sprintf("near1 lerfc %s (%s / %d) %s", RL(a),
-					RL(math.Ceil(math.Max(1, math.Abs(a)))), int64(1)<<40, RL(v)))
+				hyps = append(hyps, fmt.Sprintf("near1 lerfc %s (%s / %d) %s (%s / %d)", RL(a),
+					RL(math.Ceil(math.Max(1, math.Abs(a)))), int64(1)<<40, RL(v),
+					RL(math.Ceil(math.Max(1, math.Abs(v)))), int64(1)<<40))
 			}
 		}
 	}
@@ -222,6 +223,13 @@ func genCase(f *Fam, r *Rng) Case {
 	if (f.Name == "FGamma" || f.Name == "FChiSquared") && fn != "LogPdf" && x < 0 {
 		// GammaP at a negative argument is C13's business; the missing guard is a known finding (hunt)
 		x = -x
+	}
+	if f.Gp != nil && valid {
+		for _, ab := range f.Gp(p, x, fn) {
+			if v := special.GammaP(ab[0], ab[1]); math.IsNaN(v) || math.IsInf(v, 0) {
+				fn = "LogPdf" // special.GammaP itself fails here (C13's business): no logged value to tie to
+			}
+		}
 	}
 	o, inc := evalAll(f, p, fn, x)
 	return Case{Fam: f.Name, Fn: fn, P: p, X: x, Obs: o, Incons: inc, Class: classOf(o, valid)}
